@@ -71,7 +71,7 @@ DoPos(t) ==
 
 DoRem ==
   LET r == CoreRemaining(Kind, ist.core, BS) IN
-      /\ Rem("x", r.some, r.v, "ok")
+      /\ Rem("x", r.some, r.v, Kind \in SeekKinds, IF Kind \in SeekKinds THEN CoreGetPos(Kind, ist.core, BS) ELSE <<>>, "ok")
       /\ sch' = Append(sch, [op |-> "rem"])
       /\ UNCHANGED <<ist, total>>
 
